@@ -9,7 +9,7 @@ open SqlObjVerif.PyMain (PV FnKind Flag Expr Cond LExpr Target DRef ColAttr R ma
   updItemOf dictItemOf cvOf Block)
 open SqlObjVerif.PyMain.Extracted
 open SqlObjVerif.Fail (Err Schema Inj Extra clsOf hit exec bump applyMem Mem updPending rowVals In allOk)
-open SqlObjVerif.OrmVal (dset_not_mem)
+open SqlObjVerif.PyPure (dset_not_mem)
 
 /-- a state of `set`: twelve value locals of which the loops write 3..7, four dicts -/
 def setSt (w : FW) (v0 v1 v2 b3 b4 b5 b6 b7 v8 v9 v10 v11 : Option PV) (ls : List (List PV))
@@ -94,12 +94,12 @@ theorem set_for4_loop (call : CallT) (kvs : List (Nat × In)) :
 
 theorem dset_same {α : Type} (k : Nat) (v : α) (l : List (Nat × α)) (hnd : (l.map (·.1)).Nodup) (h : (k, v) ∈ l) :
     dset k v l = l := by
-  rw [OrmVal.dset_mem _ _ _ (List.mem_map_of_mem (f := (·.1)) h)]
+  rw [PyPure.dset_mem _ _ _ (List.mem_map_of_mem (f := (·.1)) h)]
   conv => rhs; rw [← List.map_id l]
   apply List.map_congr_left
   intro e he
   by_cases hk : e.1 = k
-  · have : e = (k, v) := OrmVal.eq_of_key_eq hnd he h hk
+  · have : e = (k, v) := PyPure.eq_of_key_eq hnd he h hk
     simp [this]
   · simp [hk]
 
